@@ -334,6 +334,16 @@ def _oracle_one(ctx, impls, seq, scale):
         os_ = np.asarray(os_)
         tables[name] = (rf, os_)
         inp = {"seq": list(seq), "scale": scale, "impl": name}
+        # call sequence on one module: after a call that asked for offsets, a call that OMITS the optional argument
+        # (and one that passes it positionally) must again return the plain table
+        for how, call in (("omitted", lambda: fn(x)), ("positional-false", lambda: fn(x, False)),
+                          ("positional-true-then-omitted", lambda: (fn(x, True), fn(x))[1])):
+            r3 = call()
+            if isinstance(r3, tuple) or np.asarray(r3).shape != rf1.shape or np.asarray(r3).tobytes() != rf1.tobytes():
+                ctx.fail("default-after-offsets", "%s: the call with getoffsets %s, made after a call with getoffsets=True, does "
+                         "not return the plain cycle table" % (name, how), inp,
+                         "tuple of %d" % len(r3) if isinstance(r3, tuple) else np.asarray(r3).tolist()[:8], rf1.tolist()[:8])
+                break
         if x.tobytes() != x0.tobytes():
             ctx.fail("input-overwritten", "the caller's peaks array is modified by the call", inp, x.tolist()[:12], x0.tolist()[:12])
             x = x0.copy()
@@ -361,11 +371,19 @@ def _oracle_one(ctx, impls, seq, scale):
         if 0 <= si.min() and si.max() < 256:
             variants.append(("uint8", si.astype(np.uint8), si.astype(float)))
         variants.append(("list", [float(v) for v in x], x))
+        variants.append(("tuple", tuple(float(v) for v in x), x))
+        # containers whose integer indexing is by LABEL: the sequence is the values in storage order
+        import pandas as pd
+        perm = np.argsort(((si * 2654435761 + np.arange(L) * 40503) % 1000003), kind="stable")
+        variants.append(("series", pd.Series(x), x))
+        variants.append(("series-reversed", pd.Series(x)[::-1], x[::-1].copy()))
+        variants.append(("series-permuted-index", pd.Series(x, index=perm), x))
+        variants.append(("series-offset-index", pd.Series(x, index=np.arange(L) + 5), x))
         for dt, y, yf in variants:
             refy = _astm_reference(np.asarray(yf, float).tolist())
             want = [tuple(float(v) for v in r[:3]) + (r[3], r[4]) for r in refy]
             for name, fn in impls.items():
-                if name == "wrapper" and dt == "list":
+                if name == "wrapper" and dt in ("list", "tuple"):
                     continue
                 try:
                     with np.errstate(all="ignore"), warnings.catch_warnings():
